@@ -69,6 +69,11 @@ CHECKS = {
    note="Trusted: simrt + instrumenter; commit tap on the server store; transport stub as in C11; cenkalti/backoff runs for real on the virtual clock (15-minute retry budget costs microseconds). In the quick tier the enumeration is sampled down to 30 scripts per history when larger (reported as enumeration-sampled vs enumeration-complete probes); the thorough tier runs all.",
    technique=TECH+"per-history enumeration of stream-reset positions and re-establishment failures on the simulated transport, stream compared with the server's commit-tap log",
    ref="DESIGN.md §7 C13"),
+ "C16": dict(level="exploration",
+   text="Seeded search over finite fault scripts and schedules: controllers erroring or panicking at Run start, at the first reconcile, after one healthy cycle or between StartTrackingOutputs and CleanupOutputs; run hooks failing at once or after two healthy virtual minutes; pkg/task tasks failing and panicking; queue items following outcome scripts; a tiny history that makes the runtime's own watch overrun; cancellation at a random virtual instant while controllers write. Oracles: Run keeps running under controller faults, every failed unit is restarted and (controllers) reconciles again, healthy controllers stay current at every quiescent point while others fail, restart delays after >=5 consecutive failures exceed every first-failure delay of the same run and reset after a healthy cycle, the whole system converges after the last fault; on a watch failure Run returns that error and nothing reconciles afterwards; after cancellation Run returns, the task table is empty (no goroutine, watch or hook left) and the commit tap shows no write by a runtime task after the return.",
+   note="Trusted: simrt + instrumenter; controller/hook/task bodies are harness code following the scripts; backoff jitter is real (seeded). Backoff oracles compare delays observed in the same run, not library constants. Sampling only.",
+   technique=TECH+"scripted fault sequences (error/panic at chosen invocations, watch overrun, cancellation instant) with containment, backoff-shape and clean-shutdown oracles",
+   ref="DESIGN.md §7 C16"),
  "C17": dict(level="exploration",
    text="Seeded search over histories of RegisterController / RegisterQController / UpdateInputs calls with valid, duplicate-name, conflicting-output, duplicate-input and kind-invalid declarations, before and after the runtime is started, while a background writer keeps events flowing (UpdateInputs is applied by the controller itself, concurrently with event delivery); after every step acceptance/rejection and the exported dependency graph are compared with a reference model written from the property statement (rejected calls have no effect), a panic of a runtime task is a crash, and after the history every controller's wake-up count must grow exactly for writes matching one of its accepted inputs by kind or by id.",
    note="Trusted: simrt + instrumenter; 70-line reference model of the dependency database; probe controllers are harness code. Four genuine defects found here were repaired in /repo. Sampling only.",
